@@ -15,6 +15,15 @@ from . import mypy_bridge
 from .mypy_bridge import SRC
 
 
+def src_pos(node: ast.AST) -> tuple:
+    """position of a node in its source file; nodes spliced in by sa/inline.py carry it in _orig_pos (their lineno is
+    the line of the call they replaced, so that ordering by line keeps meaning)"""
+    p = getattr(node, '_orig_pos', None)
+    if p is not None:
+        return p
+    return (node.lineno, node.col_offset, getattr(node, 'end_lineno', None), getattr(node, 'end_col_offset', None))  # type: ignore[attr-defined]
+
+
 class AnalysisError(Exception):
     """The analysis could not be carried out (anchor vanished, unknown shape ...) -> exit 2."""
 
@@ -259,17 +268,18 @@ class Model:
 
     # ------------------------------------------------------------------ calls / types of ast nodes
     def call_record(self, mod: ModuleInfo, call: ast.Call) -> list | None:
-        recs = self._calls.get(mod.rel, {}).get((call.lineno, call.col_offset))
+        ln, col, eln, ecol = src_pos(call)
+        recs = self._calls.get(mod.rel, {}).get((ln, col))
         if not recs:
             # inside f-strings mypy places a call one column to the left of where ast does
-            recs = [r for r in self._calls.get(mod.rel, {}).get((call.lineno, call.col_offset - 1), []) if r[2] == call.end_lineno and r[3] == call.end_col_offset]
+            recs = [r for r in self._calls.get(mod.rel, {}).get((ln, col - 1), []) if r[2] == eln and r[3] == ecol]
         if not recs:
             return None
         if len(recs) == 1:
             return recs[0]
         # several calls start at the same position (a.b().c()): disambiguate by end position
         for r in recs:
-            if r[2] == call.end_lineno and r[3] == call.end_col_offset:
+            if r[2] == eln and r[3] == ecol:
                 return r
         return recs[0]
 
@@ -300,7 +310,7 @@ class Model:
 
     def type_of(self, mod: ModuleInfo, expr: ast.AST) -> str:
         tbl = self._types.get(mod.rel, {})
-        k = (expr.lineno, expr.col_offset, expr.end_lineno, expr.end_col_offset)  # type: ignore[attr-defined]
+        k = src_pos(expr)
         t = tbl.get(k)
         if t is None:
             # f-string quirk: calls / subscripts start one column earlier in mypy's tree
